@@ -40,6 +40,8 @@ def run(chk: Check) -> None:
     deferred_stage(chk, "R09.2")
     n = stage_order(chk, "R09.2")
     chk.floor("R09.2", "consumer stages", n, 4)
+    chk.floor("R09.2", "deferred decode call sites", deferred_pass_unconditional(chk, "R09.2"), 1)
+    _tables_resolve(chk)
     own = ownership(chk.repo)
     k = 0
     for prop, rule, construct, ok, loc, msg, facts in own.obs:
@@ -153,3 +155,57 @@ def _no_decode_during_load(chk: Check) -> None:
                "%s decodes AuxData while the IR is still being loaded (%s): entries naming nodes that "
                "are decoded later stay plain UUIDs" % (f.qualname, unparse(bad[0])[:50] if bad else ""), 1)
     chk.extra["load_path_functions"] = n
+
+
+def deferred_pass_unconditional(chk: Check, rule: str) -> int:
+    """the pass that decodes what was deferred (the symbolic expressions of every interval, once
+    the symbols exist) runs for every interval of every section: it is not skipped under a
+    condition - expressions may name symbols of other modules"""
+    n = 0
+    for f in chk.repo.all_functions():
+        for c in walk_no_nested(f.node):
+            if not (isinstance(c, ast.Call) and isinstance(c.func, ast.Attribute)
+                    and c.func.attr == "_decode_symbolic_expressions"):
+                continue
+            n += 1
+            chk.saw(f)
+            conds = []
+            cur = getattr(c, "_parent", None)
+            while cur is not None and cur is not f.node:
+                if isinstance(cur, (ast.If, ast.While, ast.IfExp)):
+                    conds.append(cur)
+                elif isinstance(cur, (ast.GeneratorExp, ast.ListComp, ast.SetComp)) and any(g_.ifs for g_ in cur.generators):
+                    conds.append(cur)
+                cur = getattr(cur, "_parent", None)
+            chk.ob(rule, "%s:deferred-pass-unconditional" % f.qualname, not conds, f.loc(conds[0]) if conds else f.loc(c),
+                   "%s decodes the deferred symbolic expressions only under a condition (%s): the intervals it "
+                   "skips come back without their expressions" % (f.qualname, unparse(conds[0].test)[:50] if conds and hasattr(conds[0], "test") else "-"), 2)
+    return n
+
+
+def _tables_resolve(chk: Check) -> None:
+    # ... and the containers hand their tables the IR that is being loaded, nothing narrower
+    n_calls = 0
+    for g_ in chk.repo.all_functions():
+        for c_ in walk_no_nested(g_.node):
+            if not (isinstance(c_, ast.Call) and isinstance(c_.func, ast.Attribute)
+                    and c_.func.attr == "_read_protobuf_aux_data" and len(c_.args) + len(c_.keywords) >= 2):
+                continue
+            n_calls += 1
+            chk.saw(g_)
+            a_ = c_.args[1] if len(c_.args) >= 2 else c_.keywords[-1].value
+            ok_ = False
+            if isinstance(a_, ast.Name):
+                prm = next((x for x in ast.walk(g_.node.args) if isinstance(x, ast.arg) and x.arg == a_.id), None)
+                if prm is not None and prm.annotation is not None and "IR" in unparse(prm.annotation):
+                    ok_ = True
+                elif g_.cls is not None and g_.cls.name == "IR":
+                    binds = [x for x in walk_no_nested(g_.node) if isinstance(x, (ast.Assign, ast.AnnAssign))
+                             and any(isinstance(t_, ast.Name) and t_.id == a_.id
+                                     for t_ in (x.targets if isinstance(x, ast.Assign) else [x.target]))]
+                    ok_ = len(binds) == 1 and isinstance(binds[0].value, ast.Call) and \
+                        attr_path(binds[0].value.func) in (("cls",), ("IR",))
+            chk.ob("R09.4", "%s:tables-resolve-in-the-loading-ir" % g_.qualname, ok_, g_.loc(c_),
+                   "%s reads its AuxData tables with %s as the place to look nodes up: entries may name any node "
+                   "of the IR that is being loaded, so it must be that IR" % (g_.qualname, unparse(a_)), 2)
+    chk.floor("R09.4", "_read_protobuf_aux_data call sites", n_calls, 2)
